@@ -91,3 +91,52 @@ def erase_in_iteration(prog, fn, cg=None):
             out.append((i, "%s.%s inside the loop that iterates %s: the loop iterator is advanced "
                            "after being invalidated" % (cont, nm, cont)))
     return out
+
+
+# ---------------------------------------------------------------------------------------------------
+# exactness of floating arithmetic that feeds a discretising function (ceil/floor/round)
+#   INT     the double holds an exactly computed integer (integer-typed leaf, integral literal, and
+#           +,-,* of such: exact below 2^53)
+#   QUOT    one correctly rounded quotient of two INT values: rounding cannot cross an integer, so
+#           ceil/floor of it equal ceil/floor of the real quotient
+#   INEXACT anything else (a rounded quotient that is multiplied/added afterwards, floating inputs, ...)
+def exactness(f, node, depth=0):
+    i = node
+    n = f.nodes[i]
+    k = n["k"]
+    if k in ("cast", "paren"):
+        if k == "cast" and n.get("ck") == "FloatingToIntegral":
+            return "INT" if exactness(f, n["sub"], depth) in ("INT",) else "INT-TRUNC"
+        return exactness(f, n["sub"], depth)
+    tw = n.get("tw", "")
+    if k == "lit":
+        if n.get("lk") == "int":
+            return "INT"
+        try:
+            return "INT" if float(n.get("v", "x")) == int(float(n.get("v", "x"))) else "INEXACT"
+        except ValueError:
+            return "INEXACT"
+    if tw[:1] in ("i", "u") or tw == "b":
+        return "INT"
+    if k == "bin":
+        a, b = exactness(f, n["l"], depth), exactness(f, n["r"], depth)
+        if n["op"] in ("+", "-", "*"):
+            return "INT" if a == "INT" and b == "INT" else "INEXACT"
+        if n["op"] == "/":
+            return "QUOT" if a == "INT" and b == "INT" else "INEXACT"
+        return "INEXACT"
+    if k == "un" and n.get("op") in ("-", "+"):
+        return exactness(f, n["sub"], depth)
+    if k == "ref" and n.get("dk") in ("local",) and depth < 6:
+        # single-definition floating local: look through it
+        from .rules.common import local_init, local_writes
+        try:
+            init, v = local_init(f, n["name"])
+        except Exception:
+            return "INEXACT"
+        if v is not None and init is not None and len(local_writes(f, n["name"])) == 0:
+            return exactness(f, init, depth + 1)
+    if k == "cond":
+        a, b = exactness(f, n["t"], depth), exactness(f, n["f"], depth)
+        return a if a == b else ("QUOT" if {a, b} <= {"INT", "QUOT"} else "INEXACT")
+    return "INEXACT"
